@@ -1,0 +1,33 @@
+//go:build verif
+
+package app
+
+// Contracts for the deductive checker in /verif (comment-only; compiled only with -tags verif).
+// Lib specs: /verif/specs/c06/60_ante.spec (tx_msgs), /verif/specs/c06app/61_strings.spec.
+
+/*@
+alias MSP github.com/cosmos/cosmos-sdk/x/gov/types/v1beta1.MsgSubmitProposal
+
+// the one message kind the outermost wrapper refuses: a legacy proposal whose content is a community-pool spend
+specfunc Spend(m int) bool = isdyn(m, *MSP) && has_suffix(dyn(m, *MSP).Content.TypeUrl, "CommunityPoolSpendProposal")
+
+// ------------------------------------------------------------------ C06: the outermost ante wrapper does not bypass the routes
+// The closure returned by NewHaqqAnteHandlerDecorator (go/ssa name NewHaqqAnteHandlerDecorator$1; `h` is its captured variable:
+// the routing handler built by ante.NewAnteHandler). Every transaction it does not refuse goes through `h` with the same
+// arguments, and what `h` answers is what the wrapper answers: no transaction is accepted without having taken its route.
+func NewHaqqAnteHandlerDecorator$1
+    // baseapp runs ValidateBasic on every message before the ante handler: a MsgSubmitProposal without content never gets here
+    requires basic: forall k int :: 0 <= k && k < len(tx_msgs(tx)) && isdyn(tx_msgs(tx)[k], *MSP) ==> dyn(tx_msgs(tx)[k], *MSP) != nil && dyn(tx_msgs(tx)[k], *MSP).Content != nil
+    let msgs = tx_msgs(tx)
+    // `isValid` is reset to true in every iteration and a false one returns inside the switch: the second test is dead code
+    unreachable return: return ctx, errors.New("tx cannot be executed")
+    call h requires c06_same: ctx == old(ctx) && tx == old(tx) && simulate == old(simulate)
+    call h requires c06_nospend: forall k int :: 0 <= k && k < len(tx_msgs(tx)) ==> !Spend(tx_msgs(tx)[k])
+    ensures c06_blocked: (exists k int :: 0 <= k && k < len(msgs) && Spend(msgs[k])) ==> err != nil
+    ensures c06_passthrough: !(exists k int :: 0 <= k && k < len(msgs) && Spend(msgs[k])) ==> newCtx == ret(h, 1, 0) && err == ret(h, 1, 1)
+    loop 1 invariant idx: 0 <= i && i <= len(msgs) && msgs == tx_msgs(tx) && tx == old(tx) && ctx == old(ctx) && simulate == old(simulate)
+    loop 1 invariant nospend: forall k int :: 0 <= k && k < i ==> !Spend(msgs[k])
+    loop 2 invariant inner: 0 <= #i && #i <= 1 && len(disabledProposals) == 1 && disabledProposals[0] == "CommunityPoolSpendProposal"
+            && isdyn(msgs[i], *MSP) && msg == dyn(msgs[i], *MSP) && 0 <= i && i < len(msgs)
+            && isValid == !(#i == 1 && has_suffix(msg.Content.TypeUrl, "CommunityPoolSpendProposal"))
+@*/
